@@ -1,11 +1,11 @@
 #!/usr/bin/env python3
 """register_silent.py <bnall log> : for every refactor reported `silent` in a tools/bnall.py log (sections `== /tmp/bnw<N>`),
 make sure /verif/selftest/<ID>/silent-all-bn<letter><k>.diff exists (the benign patch as a diff against /repo; the self-test
-runs every check on it).  Batch letters: bnw -> '', bnw2 -> b, bnw3 -> c, bnw4 -> d, bnw5 -> e, bnw6 -> f, bnw7 -> g, bnw8 -> h, bnw9 -> i, bnw10 -> j."""
+runs every check on it).  Batch letters: bnw -> '', bnw2 -> b, bnw3 -> c, bnw4 -> d, bnw5 -> e, bnw6 -> f, bnw7 -> g, bnw8 -> h, bnw9 -> i, bnw10 -> j, bnw11 -> k."""
 import os, re, subprocess, sys
 HERE = os.path.dirname(os.path.dirname(os.path.abspath(__file__)))
 letter = {"/tmp/bnw": "", "/tmp/bnw2": "b", "/tmp/bnw3": "c", "/tmp/bnw4": "d", "/tmp/bnw5": "e", "/tmp/bnw6": "f",
-          "/tmp/bnw7": "g", "/tmp/bnw8": "h", "/tmp/bnw9": "i", "/tmp/bnw10": "j"}
+          "/tmp/bnw7": "g", "/tmp/bnw8": "h", "/tmp/bnw9": "i", "/tmp/bnw10": "j", "/tmp/bnw11": "k"}
 cur = None
 made = have = 0
 for line in open(sys.argv[1]):
